@@ -65,7 +65,9 @@ def catalogue(tk):
     out.append(("unknown-property", newvec(wk, "DEV", "NOPE", [one(wk, e1, v)]), {}, True))
     out.append(("unknown-element", newvec(wk, "DEV", vec, [one(wk, "ZZ", v)]), {}, True))
     if tk != "Light":
-        out.append(("unknown-and-valid-element", newvec(wk, "DEV", vec, [one(wk, "ZZ", v), one(wk, e1, v)]), {(vec, e1): [v]}, True))
+        # (the applicable part of a message is applied: 'ignored as far as it cannot be applied')
+        out.append(("unknown-and-valid-element", newvec(wk, "DEV", vec, [one(wk, "ZZ", v), one(wk, e1, v)]), {(vec, e1): [v], "required": (vec, e1)}, True))
+        out.append(("valid-and-unknown-element", newvec(wk, "DEV", vec, [one(wk, e1, v), one(wk, "ZZ", v)]), {(vec, e1): [v], "required": (vec, e1)}, True))
     else:
         out.append(("write-to-light", newvec("Text", "DEV", vec, [one("Text", e1, "Alert")]), {}, True))
     for k2 in ("Text", "Number", "Switch", "BLOB"):
@@ -233,6 +235,11 @@ def run_case(case):
                 raise Failure(f.sig, f"{where}: {f.msg}")
         after = s.snapshot()
         allowed = {tuple(k.split("/")): v for k, v in case["allowed"].items()}
+        if case.get("required"):
+            rv, re_ = case["required"]
+            got_v = after[("DEV", rv, re_)]
+            if not any(snapshot_norm(got_v) == allowed_value(rv, x) for x in allowed[(rv, re_)]):
+                raise Failure(f"applicable-part-not-applied:{rv}.{re_}", f"{where}: the validly named element still holds {got_v!r}")
         for key in after:
             if snapshot_norm(after[key]) == snapshot_norm(before[key]):
                 continue
@@ -315,7 +322,7 @@ def check_block(case):
     for entry, xml, allowed, accepts in catalogue(case["target"]):
         for at in range(len(VALID_STEPS) + 1):
           for split in {"tcp": (None, "gt1", "late"), "tty": (None, "lines"), "direct": (None,)}[case["transport"]]:
-            sub = {"transport": case["transport"], "hostile": xml, "allowed": {"/".join(k): v for k, v in allowed.items()}, "accepts": accepts, "at": at, "entry": entry, "target": case["target"], "split": split}
+            sub = {"transport": case["transport"], "hostile": xml, "allowed": {"/".join(k): v for k, v in allowed.items() if k != "required"}, "required": list(allowed["required"]) if "required" in allowed else None, "accepts": accepts, "at": at, "entry": entry, "target": case["target"], "split": split}
             try:
                 r = run_case(sub)
             except Failure as f:
